@@ -35,6 +35,13 @@ const (
 	KWeb   = "web"   // updateWebPage pts_count 0      common pts +0  -> other_updates
 	KCRead = "cread" // updateReadChannelInbox         channel pts +0 -> channel other_updates
 	KCWeb  = "cweb"  // updateChannelWebPage count 0   channel pts +0 -> channel other_updates
+	// Own operations (messages.readHistory / deleteMessages / channels.deleteMessages from this
+	// client): the event takes a position of the sequence like any other, but the client learns it
+	// from the messages.affectedMessages result of its own RPC (Manager.HandleAffected: "should be
+	// treated as an update"), not from a pushed update. A difference requested from an earlier
+	// position returns the corresponding update in other_updates.
+	KAff  = "aff"  // affectedMessages (pts +1); in a difference: updateReadHistoryOutbox
+	KCAff = "caff" // affectedMessages of a channel (channel pts +1); in a difference: updateDeleteChannelMessages
 )
 
 // Sequence names.
@@ -60,6 +67,10 @@ type Entry struct {
 // Start is the position before the entry.
 func (e Entry) Start() int { return e.End - e.Count }
 
+// Affected reports whether the client learns the entry from an RPC result (HandleAffected)
+// instead of a pushed update; such an entry has nothing that must reach the handler.
+func (e Entry) Affected() bool { return e.Kind == KAff || e.Kind == KCAff }
+
 // Class is the stable class fragment used in violation classes.
 func (e Entry) Class() string {
 	switch e.Kind {
@@ -77,6 +88,10 @@ func (e Entry) Class() string {
 		return "bot-qts-update"
 	case KCMsg:
 		return "channel-message"
+	case KAff:
+		return "affected-pts"
+	case KCAff:
+		return "channel-affected-pts"
 	default:
 		return "channel-other-pts-update"
 	}
@@ -99,7 +114,7 @@ func ParseLog(kinds []string) ([]Entry, error) {
 		name, chs, hasCh := strings.Cut(k, "@")
 		e.Kind = name
 		switch name {
-		case KMsg, KDel, KRead, KEdit:
+		case KMsg, KDel, KRead, KEdit, KAff:
 			e.Seq = SeqPts
 		case KDel2:
 			e.Seq, e.Count = SeqPts, 2
@@ -107,7 +122,7 @@ func ParseLog(kinds []string) ([]Entry, error) {
 			e.Seq, e.Count = SeqPts, 0
 		case KEnc, KQBot:
 			e.Seq = SeqQts
-		case KCMsg, KCDel, KCEdit, KCRead, KCWeb:
+		case KCMsg, KCDel, KCEdit, KCRead, KCWeb, KCAff:
 			if name == KCRead || name == KCWeb {
 				e.Count = 0
 			}
@@ -146,6 +161,46 @@ type ServerCfg struct {
 	ChanTooLong int `json:"chan_too_long,omitempty"`
 	// Seq: every log entry is its own updates envelope with seq = index+1.
 	Seq bool `json:"seq,omitempty"`
+	// Sender: "" = messages of the common sequence are basic-group messages without a sender;
+	// "unknown" = msg/edit messages carry from_id = user SenderID whose access hash the client does
+	// not know and no answer ever carries the full user; "learned" = like unknown, but every
+	// updates.difference / differenceSlice answer carries the full user in its users vector.
+	Sender string `json:"sender,omitempty"`
+	// ChatsFor: channel ids whose pushed envelopes and channel differences carry the full channel
+	// (id, access hash) in their chats vector.
+	ChatsFor []int64 `json:"chats_for,omitempty"`
+}
+
+// SenderID / SenderHash: the user that sends the common messages in Sender worlds.
+const (
+	SenderID   = 777
+	SenderHash = 99
+)
+
+func (s *Server) users() []tg.UserClass {
+	if s.Cfg.Sender != "learned" {
+		return nil
+	}
+	return []tg.UserClass{&tg.User{ID: SenderID, AccessHash: SenderHash}}
+}
+
+func (s *Server) chats(ch int64) []tg.ChatClass {
+	for _, c := range s.Cfg.ChatsFor {
+		if c == ch {
+			x := &tg.Channel{ID: ch, Title: "c"}
+			x.SetAccessHash(AccessHash)
+			return []tg.ChatClass{x}
+		}
+	}
+	return nil
+}
+
+func (s *Server) message(id int, peer tg.PeerClass, text string, date int) *tg.Message {
+	m := &tg.Message{ID: id, PeerID: peer, Message: text, Date: date}
+	if _, common := peer.(*tg.PeerChat); common && s.Cfg.Sender != "" {
+		m.SetFromID(&tg.PeerUser{UserID: SenderID})
+	}
+	return m
 }
 
 // Served says how an entry has been handed out in difference answers so far.
@@ -160,9 +215,12 @@ type Server struct {
 	Log     []Entry
 	Visible int // entries [0,Visible) exist on the server
 
-	Served   []Served
-	Covered  map[string]int // highest position per sequence set by an answered difference
-	Answered []Answer       // every answer, in order
+	Served  []Served
+	Covered map[string]int // highest position per sequence set by an answered difference
+	// Cov: the positions covered by answered differences: an answer to a request from position a
+	// that sets the state b covers (a, b] - not the positions up to a
+	Cov      map[string]map[int]bool
+	Answered []Answer // every answer, in order
 	Calls    int
 	MaxCalls int
 	// OnChanDiff, if set, is called before a getChannelDifference call is answered.
@@ -187,7 +245,7 @@ type Answer struct {
 
 // NewServer builds a server.
 func NewServer(cfg ServerCfg, log []Entry) *Server {
-	return &Server{Cfg: cfg, Log: log, Served: make([]Served, len(log)), Covered: map[string]int{}, MaxCalls: 64}
+	return &Server{Cfg: cfg, Log: log, Served: make([]Served, len(log)), Covered: map[string]int{}, Cov: map[string]map[int]bool{}, MaxCalls: 64}
 }
 
 // End is the position of a sequence over the visible log.
@@ -240,10 +298,34 @@ func (s *Server) answer(a Answer) {
 	}
 }
 
-func (s *Server) cover(seq string, p int) {
+func (s *Server) cover(seq string, from, p int) {
 	if p > s.Covered[seq] {
 		s.Covered[seq] = p
 	}
+	m := s.Cov[seq]
+	if m == nil {
+		m = map[int]bool{}
+		s.Cov[seq] = m
+	}
+	for q := from + 1; q <= p; q++ {
+		m[q] = true
+	}
+}
+
+// IsCovered reports whether position p of the sequence lies in the range of an answered difference.
+func (s *Server) IsCovered(seq string, p int) bool { return s.Cov[seq][p] }
+
+// CovKey renders the covered positions of a sequence (for state keys).
+func (s *Server) CovKey(seq string) string {
+	var sb strings.Builder
+	for p := 1; p <= s.Covered[seq]; p++ {
+		if s.Cov[seq][p] {
+			sb.WriteByte('1')
+		} else {
+			sb.WriteByte('0')
+		}
+	}
+	return sb.String()
 }
 
 // UpdatesGetDifference implements updates.API.
@@ -271,7 +353,7 @@ func (s *Server) UpdatesGetDifference(ctx context.Context, req *tg.UpdatesGetDif
 		return &tg.UpdatesDifferenceEmpty{Date: s.date(), Seq: s.seqNo()}, nil
 	}
 	if s.Cfg.TooLong > 0 && behind >= s.Cfg.TooLong {
-		s.cover(SeqPts, ptsEnd)
+		s.cover(SeqPts, req.Pts, ptsEnd)
 		s.answer(Answer{Seq: SeqPts, Type: "differenceTooLong", Pts: ptsEnd, Qts: req.Qts})
 		return &tg.UpdatesDifferenceTooLong{Pts: ptsEnd}, nil
 	}
@@ -320,14 +402,14 @@ func (s *Server) UpdatesGetDifference(ctx context.Context, req *tg.UpdatesGetDif
 		stateQts = req.Qts
 	}
 	state := tg.UpdatesState{Pts: statePts, Qts: stateQts, Date: s.date(), Seq: s.seqNo()}
-	s.cover(SeqPts, statePts)
-	s.cover(SeqQts, stateQts)
+	s.cover(SeqPts, req.Pts, statePts)
+	s.cover(SeqQts, req.Qts, stateQts)
 	if sliced {
 		s.answer(Answer{Seq: SeqPts, Type: "differenceSlice", Pts: statePts, Qts: stateQts, Entries: ids})
-		return &tg.UpdatesDifferenceSlice{NewMessages: msgs, NewEncryptedMessages: enc, OtherUpdates: others, IntermediateState: state}, nil
+		return &tg.UpdatesDifferenceSlice{NewMessages: msgs, NewEncryptedMessages: enc, OtherUpdates: others, IntermediateState: state, Users: s.users()}, nil
 	}
 	s.answer(Answer{Seq: SeqPts, Type: "difference", Pts: statePts, Qts: stateQts, Entries: ids})
-	return &tg.UpdatesDifference{NewMessages: msgs, NewEncryptedMessages: enc, OtherUpdates: others, State: state}, nil
+	return &tg.UpdatesDifference{NewMessages: msgs, NewEncryptedMessages: enc, OtherUpdates: others, State: state, Users: s.users()}, nil
 }
 
 // UpdatesGetChannelDifference implements updates.API.
@@ -371,7 +453,7 @@ func (s *Server) UpdatesGetChannelDifference(ctx context.Context, req *tg.Update
 		return &tg.UpdatesChannelDifferenceEmpty{Final: true, Pts: end}, nil
 	}
 	if s.Cfg.ChanTooLong > 0 && len(todo) >= s.Cfg.ChanTooLong {
-		s.cover(seq, end)
+		s.cover(seq, req.Pts, end)
 		s.answer(Answer{Seq: seq, Chan: in.ChannelID, Type: "channelDifferenceTooLong", Pts: end})
 		d := &tg.Dialog{Peer: &tg.PeerChannel{ChannelID: in.ChannelID}}
 		d.SetPts(end)
@@ -401,16 +483,16 @@ func (s *Server) UpdatesGetChannelDifference(ctx context.Context, req *tg.Update
 			pts = e.End
 		}
 	}
-	s.cover(seq, pts)
+	s.cover(seq, req.Pts, pts)
 	s.answer(Answer{Seq: seq, Chan: in.ChannelID, Type: fmt.Sprintf("channelDifference(final=%v)", final), Pts: pts, Entries: ids})
-	return &tg.UpdatesChannelDifference{Final: final, Pts: pts, NewMessages: msgs, OtherUpdates: others}, nil
+	return &tg.UpdatesChannelDifference{Final: final, Pts: pts, NewMessages: msgs, OtherUpdates: others, Chats: s.chats(in.ChannelID)}, nil
 }
 
 // Update builds a fresh update object for an entry (as pushed, i.e. with its position).
 func (s *Server) Update(e Entry) tg.UpdateClass {
 	switch e.Kind {
 	case KMsg:
-		return &tg.UpdateNewMessage{Message: &tg.Message{ID: e.ID, PeerID: &tg.PeerChat{ChatID: 7}, Message: "m", Date: EntryDate(e.Idx)}, Pts: e.End, PtsCount: e.Count}
+		return &tg.UpdateNewMessage{Message: s.message(e.ID, &tg.PeerChat{ChatID: 7}, "m", EntryDate(e.Idx)), Pts: e.End, PtsCount: e.Count}
 	case KDel:
 		return &tg.UpdateDeleteMessages{Messages: []int{e.ID}, Pts: e.End, PtsCount: e.Count}
 	case KDel2:
@@ -418,14 +500,16 @@ func (s *Server) Update(e Entry) tg.UpdateClass {
 	case KRead:
 		return &tg.UpdateReadHistoryInbox{Peer: &tg.PeerChat{ChatID: 7}, MaxID: e.ID, Pts: e.End, PtsCount: e.Count}
 	case KEdit:
-		return &tg.UpdateEditMessage{Message: &tg.Message{ID: e.ID, PeerID: &tg.PeerChat{ChatID: 7}, Message: "e", Date: EntryDate(e.Idx)}, Pts: e.End, PtsCount: e.Count}
+		return &tg.UpdateEditMessage{Message: s.message(e.ID, &tg.PeerChat{ChatID: 7}, "e", EntryDate(e.Idx)), Pts: e.End, PtsCount: e.Count}
 	case KEnc:
 		return &tg.UpdateNewEncryptedMessage{Message: &tg.EncryptedMessage{RandomID: int64(e.ID), ChatID: 9, Date: EntryDate(e.Idx)}, Qts: e.End}
 	case KQBot:
 		return &tg.UpdateBotStopped{UserID: int64(e.ID), Date: EntryDate(e.Idx), Stopped: true, Qts: e.End}
 	case KCMsg:
 		return &tg.UpdateNewChannelMessage{Message: &tg.Message{ID: e.ID, PeerID: &tg.PeerChannel{ChannelID: e.Chan}, Message: "c", Date: EntryDate(e.Idx)}, Pts: e.End, PtsCount: e.Count}
-	case KCDel:
+	case KAff:
+		return &tg.UpdateReadHistoryOutbox{Peer: &tg.PeerChat{ChatID: 7}, MaxID: e.ID, Pts: e.End, PtsCount: e.Count}
+	case KCDel, KCAff:
 		return &tg.UpdateDeleteChannelMessages{ChannelID: e.Chan, Messages: []int{e.ID}, Pts: e.End, PtsCount: e.Count}
 	case KWeb:
 		return &tg.UpdateWebPage{Webpage: &tg.WebPageEmpty{ID: int64(e.ID)}, Pts: e.End, PtsCount: 0}
@@ -448,10 +532,21 @@ func (s *Server) Push(i int, envelope string) tg.UpdatesClass {
 		return &tg.Updates{Updates: []tg.UpdateClass{u}, Date: EntryDate(i), Seq: i + 1}
 	case envelope == "short":
 		return &tg.UpdateShort{Update: u, Date: EntryDate(i)}
+	case envelope == "shortchat" && e.Kind == KMsg:
+		// own message in a basic group, as the server pushes it to the sender's other sessions
+		return &tg.UpdateShortChatMessage{Out: true, ID: e.ID, FromID: SelfID, ChatID: 7, Message: "m", Pts: e.End, PtsCount: e.Count, Date: EntryDate(i)}
+	case envelope == "shortuser" && e.Kind == KMsg:
+		// private message from a user whose access hash the client does not know
+		return &tg.UpdateShortMessage{ID: e.ID, UserID: SenderID, Message: "m", Pts: e.End, PtsCount: e.Count, Date: EntryDate(i)}
+	case envelope == "shortsent" && e.Kind == KMsg:
+		// the result of the client's own messages.sendMessage, fed in by the update hook
+		return &tg.UpdateShortSentMessage{Out: true, ID: e.ID, Pts: e.End, PtsCount: e.Count, Date: EntryDate(i)}
+	case envelope == "shortchat" || envelope == "shortuser" || envelope == "shortsent":
+		return &tg.UpdateShort{Update: u, Date: EntryDate(i)}
 	case envelope == "combined":
 		return &tg.UpdatesCombined{Updates: []tg.UpdateClass{u}, Date: EntryDate(i)}
 	default:
-		return &tg.Updates{Updates: []tg.UpdateClass{u}, Date: EntryDate(i)}
+		return &tg.Updates{Updates: []tg.UpdateClass{u}, Date: EntryDate(i), Chats: s.chats(e.Chan)}
 	}
 }
 
@@ -465,10 +560,18 @@ func (s *Server) PushContainer(idx []int, envelope string) tg.UpdatesClass {
 			date = d
 		}
 	}
-	if envelope == "combined" {
-		return &tg.UpdatesCombined{Updates: us, Date: date}
+	var chats []tg.ChatClass
+	seen := map[int64]bool{}
+	for _, i := range idx {
+		if ch := s.Log[i].Chan; ch != 0 && !seen[ch] {
+			seen[ch] = true
+			chats = append(chats, s.chats(ch)...)
+		}
 	}
-	return &tg.Updates{Updates: us, Date: date}
+	if envelope == "combined" {
+		return &tg.UpdatesCombined{Updates: us, Date: date, Chats: chats}
+	}
+	return &tg.Updates{Updates: us, Date: date, Chats: chats}
 }
 
 // Identify maps an update seen by the handler (or held by the engine) back to the log entry
@@ -477,9 +580,14 @@ func (s *Server) Identify(u any) int {
 	id, kind := 0, ""
 	switch u := u.(type) {
 	case *tg.UpdateNewMessage:
-		if m, ok := u.Message.(*tg.Message); ok {
+		switch m := u.Message.(type) {
+		case *tg.Message:
+			id, kind = m.ID, KMsg
+		case *tg.MessageEmpty: // converted updateShortSentMessage
 			id, kind = m.ID, KMsg
 		}
+	case *tg.UpdateReadHistoryOutbox:
+		id, kind = u.MaxID, KAff
 	case *tg.UpdateDeleteMessages:
 		if len(u.Messages) > 0 {
 			id, kind = u.Messages[0], KDel
@@ -536,6 +644,9 @@ func (s *Server) Identify(u any) int {
 	k := s.Log[i].Kind
 	if k == KDel2 {
 		k = KDel
+	}
+	if k == KCAff {
+		k = KCDel
 	}
 	if k != kind {
 		return -1
